@@ -24,8 +24,9 @@ from yowsup.profile.profile import YowProfile
 
 ID = "C16"
 LEVEL = "exploration"
-RULE = ("generated histories of 3-25 events over {connect request (established / refused), peer close, disconnect request (only while "
-        "up), success, failure, stream error (conflict / ack / xml-not-well-formed, with or without text), keep-alive tick (virtual "
+RULE = ("generated histories of 3-25 events over {connect request (established / refused; the server's handshake reply delivered at "
+        "once or held back so that the connection is still being established when the next event arrives), peer close, disconnect "
+        "request (only while up or being established), server reply, success, failure, stream error (conflict / ack / xml-not-well-formed, with or without text), keep-alive tick (virtual "
         "clock, one second at a time), pong for a chosen outstanding ping, application send, loop runs} with options {reconnect on "
         "stream error on/off, ping interval 1-3 s, passive}; the history is closed out (connection closed, loop run until no deferred "
         "callback is left) before the top-level counts are compared. Non-trivial = at least 2 established connections in the history, "
@@ -88,7 +89,7 @@ def build(case):
     props = {YowIqProtocolLayer.PROP_PING_INTERVAL: case.get("ping_interval", 2),
              YowInterfaceLayer.PROP_RECONNECT_ON_STREAM_ERR: bool(case.get("reconnect", True)),
              YowAuthenticationProtocolLayer.PROP_PASSIVE: bool(case.get("passive", False))}
-    rig = TR.Rig(choices=case.get("choices", ()), upper=upper, props=props, profile=profile)
+    rig = TR.Rig(choices=case.get("choices", ()), upper=upper, props=props, profile=profile, preempt=case.get("preempt"))
     rig.home = home
     return rig
 
@@ -131,7 +132,8 @@ def _run(case, out, rig):
     reconnect_opt = bool(case.get("reconnect", True))
 
     m = {"state": "down", "authed": False, "pending_reconnect": False, "outstanding": [], "established": 0, "attempts": 0,
-         "successes": 0, "failures": 0, "stream_errors": 0, "keepalive_decision": False}
+         "successes": 0, "failures": 0, "stream_errors": 0, "keepalive_decision": False, "held": None, "cut_in_handshake": 0}
+    late = list(case.get("late", []))
     rig.redundant_down = bool(case.get("redundant_down"))
     rig.connect_outcomes.extend(case.get("outcomes", []))   # consumed by the dispatcher double, one per connection attempt
 
@@ -142,10 +144,21 @@ def _run(case, out, rig):
     def count(lst, name):
         return len([e for e in lst if e == name])
 
+    def stuck_now():
+        """a handshake worker waiting for the server's reply is not stuck while that reply is being held back, and the worker of a
+        connection that was cut off keeps waiting until the next login wakes it up"""
+        last = getattr(rig.sched, "last_handshake_task", None)
+        res = []
+        for name, on in rig.stuck_tasks():
+            if name.startswith("handshake") and (name != last or m["state"] != "up" or m["held"] is not None):
+                continue
+            res.append((name, on))
+        return res
+
     def check_invariants(step, op):
         if rig.writes_while_down:
             return fail("write_to_connection_that_is_down", {"step": step, "op": op, "bytes": rig.writes_while_down[:3]})
-        stuck = rig.stuck_tasks()
+        stuck = stuck_now()
         if stuck:
             return fail("task_blocked_forever", {"step": step, "op": op, "blocked": stuck})
         if rig.sched.overrun:
@@ -204,12 +217,28 @@ def _run(case, out, rig):
         except TR.ProtocolViolation as e:
             return fail("fresh_login_rejected_by_server", {"step": step, "problem": str(e)})
         o = rig.server.take_out()
-        if o:
-            rig.deliver(o)
-        probs = rig.shuttle()
+        if not o:
+            return fail("fresh_login_incomplete", {"step": step, "op": op, "problems": ["no server reply to the client's opening bytes"],
+                                                   "state": rig.server.state, "client_bytes": len(b)})
+        if late and late.pop(0):
+            # the server's reply is still on its way: the connection is "being established"
+            m["held"] = o
+            out.label("server_reply_held_back")
+            return True
+        return finish_handshake(step, op, o)
+
+    def finish_handshake(step, op, o):
+        m["held"] = None
+        rig.deliver(o)
+        probs = rig.shuttle(only=rig.current)
         if probs or rig.server.state != "transport":
             return fail("fresh_login_incomplete", {"step": step, "op": op, "problems": [str(p) for p in probs], "state": rig.server.state,
                                                    "stuck": rig.stuck_tasks()})
+        return True
+
+    def ensure_handshake(step, op):
+        if m["state"] == "up" and m["held"] is not None:
+            return finish_handshake(step, op, m["held"])
         return True
 
     def connection_established(step, op):
@@ -222,6 +251,10 @@ def _run(case, out, rig):
     def went_down():
         m["state"] = "down"
         m["authed"] = False
+        if m["held"] is not None:
+            m["held"] = None
+            m["cut_in_handshake"] += 1
+            out.label("cut_while_being_established")
 
     def attempts_seen():
         return [e for e in rig.log if e[0] == "dispatcher.connect"]
@@ -284,7 +317,12 @@ def _run(case, out, rig):
     for step, op in enumerate(case["ops"]):
         kind = op[0]
         expected_new = 0
-        if kind == "connect":
+        if kind in ("success", "failure", "stream_error", "tick", "pong", "send", "server_reply"):
+            if not ensure_handshake(step, op):
+                return out
+        if kind == "server_reply":
+            pass
+        elif kind == "connect":
             if m["state"] == "up":
                 # a connect request while connected is ignored with a warning
                 app_task("app%d" % step, lambda: rig.stack.broadcastEvent(YowLayerEvent(YowNetworkLayer.EVENT_STATE_CONNECT)))
@@ -435,6 +473,8 @@ def _run(case, out, rig):
         fail("authed_count", {"seen": count(seen_below, YowAuthenticationProtocolLayer.EVENT_AUTHED), "successes": m["successes"]})
         return out
     out.info = {"nt": m["established"] >= 2 or m["keepalive_decision"]}
+    if m["cut_in_handshake"] and m["established"] >= 2:
+        out.label("login_after_cut_handshake")
     return out
 
 
@@ -458,7 +498,7 @@ def op_strategy():
         st.tuples(st.just("stream_error"), st.sampled_from(["conflict", "ack", "xml-not-well-formed"]), st.booleans()).map(list),
         st.just(["tick"]), st.just(["tick"]),
         st.tuples(st.just("pong"), st.integers(0, 3)).map(list),
-        st.just(["send"]), st.just(["close_and_send"]),
+        st.just(["send"]), st.just(["close_and_send"]), st.just(["server_reply"]),
     )
 
 
@@ -473,7 +513,9 @@ def case_strategy():
                 "ping_interval": draw(st.integers(1, 3)),
                 "passive": draw(st.booleans()),
                 "redundant_down": draw(st.booleans()),
-                "choices": draw(st.lists(st.integers(0, 5), min_size=n, max_size=n))}
+                "late": draw(st.lists(st.booleans(), min_size=0, max_size=6)),
+                "choices": draw(st.lists(st.integers(0, 5), min_size=n, max_size=n)),
+                "preempt": draw(st.lists(st.tuples(st.integers(0, 1500), st.integers(0, 3)).map(list), min_size=0, max_size=3)) if n == 0 else []}
     return build_()
 
 
@@ -486,6 +528,9 @@ def _enum_basic():
     yield dict(base, outcomes=["refused", "ok"], ops=[["connect"], ["loop"], ["connect"], ["success"], ["disconnect"], ["loop"]])
     yield dict(base, ops=[["connect"], ["connect"], ["success"], ["tick"], ["peer_close"], ["tick"], ["loop"], ["connect"], ["success"], ["tick"]])
     yield dict(base, redundant_down=True, ops=[["connect"], ["success"], ["close_and_send"], ["connect"], ["success"], ["disconnect"], ["connect"], ["peer_close"]])
+    yield dict(base, late=[True, True, True, False], ops=[["connect"], ["peer_close"], ["connect"], ["disconnect"], ["connect"], ["server_reply"], ["success"],
+                                                          ["peer_close"], ["connect"], ["success"], ["tick"]])
+    yield dict(base, late=[True, True], ops=[["connect"], ["close_and_send"], ["loop"], ["connect"], ["success"], ["stream_error", "ack", False], ["success"]])
 
 
 def plan(tier):
